@@ -33,6 +33,13 @@ func (w *recW) Write(p []byte) (int, error) {
 	attempts++
 	events = append(events, event{W: w.id, Kind: "write", Payload: append([]byte(nil), p...)})
 	if failPlan != nil && failPlan(w.id, attempts-1) {
+		// the three ways a Write fails: nothing written; part written and io.ErrShortWrite; part written and another error
+		switch (attempts - 1 + w.id) % 3 {
+		case 1:
+			return len(p) / 2, io.ErrShortWrite
+		case 2:
+			return len(p) / 2, fmt.Errorf("injected failure on writer %d after %d bytes", w.id, len(p)/2)
+		}
 		return 0, fmt.Errorf("injected failure on writer %d", w.id)
 	}
 	return len(p), nil
